@@ -21,8 +21,10 @@
 (*  ring   {msg, rings[[sec]], e0, s[[nat]], out}   borromean.verify         *)
 (*  commit {r, v, out: point | refused: bool}   pedersen.commit             *)
 (*  secondgen {out: point}                      pedersen.second_generator   *)
+(*  ellswift {c: curve, ell, out: point}        ellswift.decode_var         *)
+(*  xdh    {c, ella, ellb, q, party, out}       ellswift.xdh                *)
 (***************************************************************************)
-EXTENDS TwoParty, RingSig, EvBase
+EXTENDS TwoParty, RingSig, EllSwift, EvBase
 
 HX(s) == FromHex(s)
 Tweaks(e) == [j \in 1..Len(e.tweaks) |-> <<N(e.tweaks[j].t), e.tweaks[j].x>>]
@@ -70,6 +72,9 @@ Check(e) ==
   CASE e.op = "musig" -> MusigOK(e)
     [] e.op = "psbtmusig" -> PsbtMusigOK(e)
     [] e.op = "ring" -> e.out = RingOut(e)
+    [] e.op = "ellswift" -> LET c == CurveOf(e.c)  b == HX(e.ell)  size == PLen(c) IN
+                              EllDecode(c, BFromBytes(SubSeq(b, 1, size)), BFromBytes(SubSeq(b, size + 1, 2 * size))) = PtOf(e.out)
+    [] e.op = "xdh" -> ToHex(XdhSecret(CurveOf(e.c), HX(e.ella), HX(e.ellb), N(e.q), e.party)) = e.out
     [] e.op = "commit" -> LET cm == Commit(K1, S256, N(e.r), N(e.v)) IN IF e.refused THEN ~cm.ok ELSE cm.ok /\ cm.Q = PtOf(e.out)
     [] e.op = "secondgen" -> SecondGenerator(K1, S256) = PtOf(e.out)
     [] e.op = "dh" -> LET r == DhKey(K1, HF(e.hf), N(e.d), PtOf(e.q), e.size, HX(e.info)) IN
@@ -95,6 +100,9 @@ Diag == i > 0 => PrintT(<<"DIAG", i, <<Trace[i].op,
                      <<ToHex(CBytes(K1, KeyAgg(K1, S256, Pks(e)).Q)), ses.ok, ToHex(XBytes(K1, ses.Q.x)),
                        [j \in 1..Len(psigs) |-> PartialVerify(K1, S256, Pks(e), ses, psigs[j], Nonces(e)[j], Pks(e)[j])], PartialAgg(K1, ses, psigs)>>
               [] Trace[i].op = "ring" -> RingOut(Trace[i])
+              [] Trace[i].op = "ellswift" -> LET e == Trace[i]  c == CurveOf(e.c)  b == HX(e.ell)  size == PLen(c) IN
+                              EllDecode(c, BFromBytes(SubSeq(b, 1, size)), BFromBytes(SubSeq(b, size + 1, 2 * size)))
+              [] Trace[i].op = "xdh" -> ToHex(XdhSecret(CurveOf(Trace[i].c), HX(Trace[i].ella), HX(Trace[i].ellb), N(Trace[i].q), Trace[i].party))
               [] Trace[i].op = "commit" -> Commit(K1, S256, N(Trace[i].r), N(Trace[i].v))
               [] Trace[i].op = "spsend" -> LET e == Trace[i] IN
                      [j \in 1..Len(e.rs) |-> ToHex(SenderOutputs([q \in 1..Len(e.inputs) |-> [d |-> N(e.inputs[q].d), taproot |-> e.inputs[q].taproot]],
